@@ -1,5 +1,6 @@
 import HpackVerif.Impl.EncModel
 import HpackVerif.Impl.Utf8
+import HpackVerif.Generated.Consts
 /-! L2 model of the API glue around the codec core:
     `_unicode_if_needed` / text mode of `Decoder.decode`, `_to_bytes`, sensitivity extraction,
     `_dict_to_iterable`, the guards of `encode_integer` / `decode_integer`.  Core Lean only. -/
@@ -90,5 +91,31 @@ def Container.norm : Container → List (Bytes × Bytes × Bool)
 /-- `Encoder.encode(headers, huffman)` on any accepted input form -/
 def EncState.encodeApi (strict : Bool) (e : EncState) (c : Container) (huff : Bool) : Out (Bytes × EncState) :=
   e.encode strict c.norm huff
+
+/-! ### the tree as it stands
+
+The model functions are parametrised by four switches so that one development can state both the
+witnesses about the behaviour before the repairs D1-D4 and the theorems about the repaired code.
+`Cfg`'s defaults describe the CURRENT tree: the integer cap is the constant the translator reads from
+the source (`none` if there is none), the three Boolean repairs are in.  The line-protocol driver runs
+the model at `Cfg` defaults, so this is the instantiation the correspondence check validates against
+the implementation, and the one the property theorems (`Props/*`) are stated for. -/
+structure Cfg where
+  cap : Option Nat := Gen.intCap
+  own : Bool := true       -- D2: plain literals are copied out of the caller's buffer
+  sticky : Bool := true    -- D3: a no-op size assignment keeps a pending update
+  strict : Bool := true    -- D4: `if perfect is not None`
+
+namespace Cur
+/-- `Decoder.decode(data, raw)` on the current tree -/
+def decode (st : DecState) (data : Bytes) (raw : Bool) : Out (List Header) × DecState :=
+  decodeApi Gen.intCap true st data raw
+/-- `Encoder.encode(headers, huffman)` on normalised input on the current tree -/
+def encode (e : EncState) (hs : List (Bytes × Bytes × Bool)) (huff : Bool) : Out (Bytes × EncState) :=
+  e.encode true hs huff
+/-- `Encoder.header_table_size = v` on the current tree -/
+def setSize (e : EncState) (v : Nat) : Out EncState := e.setSize true v
+def decodeInt (data : Bytes) (N : Int) : Out (Nat × Nat) := decodeIntApi Gen.intCap data N
+end Cur
 
 end Impl
